@@ -144,6 +144,10 @@ def run_order_campaign(rep: common.Report, jobs, timeout=600):
                 rep.nontrivial(t["id"])
             continue
         replay = dict(kind="order_trace", job=job, trace_id=t["id"], verdict=v)
+        mine = {"DeterministicAcrossSchedules": "C02"}.get(v["clause"], "C03")
+        if mine != rep.prop:
+            rep.note(f"order trace {t['id']} rejected by clause {v['clause']} which belongs to {mine}; not examined further here")
+            continue
         rep.violation(dict(clause="order:" + v["clause"]), replay,
                       text=f"trace {t['id']} ({job['mode']}) rejected by RexOrder clause {v['clause']}: {v['detail'][:700]}")
     return dict(order_traces=len(traces), order_accepted=n_acc,
